@@ -579,6 +579,31 @@ pub fn run_codec(cfg: &Value) -> Value {
             raw[e] = env::mark_noncanonical(&raw[e]);
         }
     }
+    // point positions holding bytes that are not the encoding of any group element: the codec treats points as opaque
+    if let Some(ud) = cfg["undecodable"].as_array() {
+        for e in ud {
+            let e = e.as_u64().unwrap() as usize;
+            raw[e] = env::mark_undecodable(&raw[e]);
+        }
+    }
+    // literal canonical scalars at the top of the range: l-1, l-2, 2^252, and small ones
+    if let Some(sp) = cfg["special_scalars"].as_array() {
+        for it in sp {
+            let e = it[0].as_u64().unwrap() as usize;
+            let v = match it[1].as_str().unwrap_or("") {
+                "minus_one" => -Scalar::ONE,
+                "minus_two" => -Scalar::from(2u8),
+                "two252" => {
+                    let mut b = [0u8; 32];
+                    b[31] = 0x10;
+                    Option::<Scalar>::from(Scalar::from_canonical_bytes(b)).expect("2^252 is canonical")
+                },
+                "zero" => Scalar::ZERO,
+                _ => Scalar::ONE,
+            };
+            raw[e] = v.to_bytes();
+        }
+    }
     for b in &raw {
         bytes.extend_from_slice(b);
     }
